@@ -194,3 +194,389 @@ def gen_C14(tier, seed):
 
 
 GENERATORS = {"C01": gen_C01, "C02": gen_C02, "C03": gen_C03, "C14": gen_C14}
+
+
+# ------------------------------------------------------------------------------ epochs
+def p3(e):
+    return f"{e[0]} {e[1]} {e[2]}"
+
+
+def gen_C04(tier, seed):
+    g = EGen(seed)
+    out = corpus("C04")
+    vals = g.epoch_vals_pool()
+    durs = [(0, 0), (0, 1), (-1, NPC - 1), (0, SEC), (-1, NPC - SEC), (0, NPD), (1, 0), (-1, 0), (1, 5), (-2, 7), (100, 3), (-100, 9)]
+    for t in range(9):
+        for v in vals:
+            e = parts_of(v) + (t,)
+            for d in durs:
+                out.append(f"eadd {p3(e)} {p2(d)}")
+                out.append(f"esub {p3(e)} {p2(d)}")
+            for u in (0, 3, 6, 8):
+                out.append(f"eadd_unit {p3(e)} {u}")
+                out.append(f"esub_unit {p3(e)} {u}")
+    for t1 in INT_SCALES:
+        for t2 in INT_SCALES:
+            for v1 in vals[::5]:
+                for v2 in vals[::7]:
+                    out.append(f"ediff {p3(parts_of(v1) + (t1,))} {p3(parts_of(v2) + (t2,))}")
+    n = budget(tier, 30000, 1500000)
+    for _ in range(n):
+        e = g.rand_epoch(list(range(9)))
+        k = g.r.random()
+        if k < 0.35:
+            out.append(f"eadd {p3(e)} {p2(g.rand_parts())}")
+        elif k < 0.7:
+            out.append(f"esub {p3(e)} {p2(g.rand_parts())}")
+        elif k < 0.8:
+            out.append(f"{g.r.choice(['eadd_unit','esub_unit'])} {p3(e)} {g.r.randint(0, 8)}")
+        else:
+            out.append(f"ediff {p3(g.rand_epoch())} {p3(g.rand_epoch())}")
+    return out
+
+
+def gen_C05(tier, seed):
+    g = EGen(seed)
+    out = corpus("C05")
+    vals = g.epoch_vals_pool() + [MINV, MAXV - 1, MINV + NPC, MAXV - NPC]
+    for t1 in UNIFORM:
+        for t2 in UNIFORM:
+            for v in vals:
+                out.append(f"conv {p3(parts_of(v) + (t1,))} {t2}")
+    for t in UNIFORM:
+        out.append(f"conv 0 0 {t} 0")      # the scale's zero on the TAI axis
+        for v in vals[:12]:
+            out.append(f"to_greg {p2(parts_of(v))} {t}")   # the zero reads 00:00:00 of its date in the scale itself
+            out.append(f"to_bdt {p2(parts_of(v))} {t}")
+        out.append(f"to_greg 0 0 {t}")
+    n = budget(tier, 40000, 2000000)
+    for _ in range(n):
+        e = g.rand_epoch(UNIFORM)
+        out.append(f"conv {p3(e)} {g.r.choice(UNIFORM)}")
+        if g.r.random() < 0.05:
+            out.append(f"to_bdt {p3(e)}")
+    return out
+
+
+def gen_C06(tier, seed):
+    g = EGen(seed)
+    out = corpus("C06")
+    for v in g.leap_neighbourhood(quick=(tier != "thorough")):
+        c, n = parts_of(v)
+        out.append(f"conv {c} {n} 4 0")      # UTC -> TAI
+        out.append(f"conv {c} {n} 0 4")      # TAI -> UTC
+        out.append(f"leap {c} {n} 4")
+        out.append(f"leap {c} {n} 0")
+    for v in [0, -1, 1, -NPC, LEAP_TS[0] * SEC - NPD, (LEAP_TS[0] - 365 * 86400 * 10) * SEC, 1893369600 * SEC, 2148508800 * SEC + 5,
+              LEAP_TS[-1] * SEC + NPD, 2 * NPC, 5 * NPC, MINV, MAXV - 1]:
+        c, n = parts_of(v)
+        for t1, t2 in ((4, 0), (0, 4)):
+            out.append(f"conv {c} {n} {t1} {t2}")
+        out.append(f"leap {c} {n} 4")
+    for t in (1, 5, 6, 7, 8):
+        for v in g.leap_neighbourhood()[::37]:
+            c, n = parts_of(v)
+            out.append(f"conv {c} {n} 4 {t}")
+            out.append(f"conv {c} {n} {t} 4")
+    n = budget(tier, 40000, 2000000)
+    for _ in range(n):
+        v = g.rand_epoch_val()
+        c, n_ = parts_of(v)
+        k = g.r.random()
+        if k < 0.4:
+            out.append(f"conv {c} {n_} 4 0")
+        elif k < 0.8:
+            out.append(f"conv {c} {n_} 0 4")
+        elif k < 0.9:
+            out.append(f"leap {c} {n_} {g.r.choice([0, 4])}")
+        else:
+            t = g.r.choice([1, 5, 6, 7, 8])
+            out.append(f"conv {c} {n_} {g.r.choice([4, t])} {g.r.choice([4, t])}")
+    return out
+
+
+def gen_C12(tier, seed):
+    g = EGen(seed)
+    out = corpus("C12")
+    # same instant in two scales, 1 ns apart, symmetric about each reference epoch, either side of leap seconds
+    tai_instants = []
+    for t, ref in REF_NS.items():
+        for d in (-1000, -1, 0, 1, 1000):
+            tai_instants.append(ref + d)
+    for v in g.leap_neighbourhood()[::11]:
+        tai_instants.append(v)
+    def to_scale(i, t):
+        # count in scale t of TAI instant i (python mirror of the spec, uniform scales only; UTC via table)
+        if t == 4:
+            d = 0
+            for ts, dl in zip(LEAP_TS, LEAP_DELTA):
+                if (ts + d) * SEC <= i:
+                    d = dl
+                else:
+                    break
+            return i - d * SEC
+        zero = {0: 0, 1: -32184000000, 5: REF_NS[5], 8: REF_NS[8], 6: REF_NS[6], 7: REF_NS[7]}[t]
+        return i - zero
+    for i in tai_instants[:: (1 if tier == "thorough" else 3)]:
+        for t1 in INT_SCALES:
+            for t2 in INT_SCALES:
+                for d in (-1, 0, 1):
+                    a = parts_of(to_scale(i, t1)) + (t1,)
+                    b = parts_of(to_scale(i + d, t2)) + (t2,)
+                    out.append(f"ecmp {p3(a)} {p3(b)}")
+                    out.append(f"eeq {p3(a)} {p3(b)}")
+    # symmetric about the reference in the same scale (the old Duration == quirk)
+    for t in range(9):
+        for d in (1, 1000, SEC, NPC - 1):
+            a = parts_of(-d) + (t,); b = parts_of(d) + (t,)
+            out.append(f"eeq {p3(a)} {p3(b)}")
+            out.append(f"ecmp {p3(a)} {p3(b)}")
+            out.append(f"emin {p3(a)} {p3(b)}")
+            out.append(f"emax {p3(a)} {p3(b)}")
+    n = budget(tier, 40000, 2000000)
+    for _ in range(n):
+        a = g.rand_epoch()
+        k = g.r.random()
+        if k < 0.5:
+            b = g.rand_epoch()
+        else:
+            va = a[0] * NPC + a[1]
+            b = parts_of(va + g.r.choice([-1, 0, 1, 37 * SEC, -37 * SEC, 19 * SEC, REF_NS[5], -REF_NS[5], 32184000000])) + (g.r.choice(INT_SCALES),)
+        f = g.r.choice(["ecmp", "eeq", "ecmp", "eeq", "emin", "emax"])
+        out.append(f"{f} {p3(a)} {p3(b)}")
+    return out
+
+
+def gen_C15(tier, seed):
+    g = EGen(seed)
+    out = corpus("C15")
+    starts = [(0, 0, 0), (1, 5, 4), (-1, NPC - 7, 5), (0, LEAP_TS[-1] * SEC - 3 * SEC, 4), (0, LEAP_TS[-1] * SEC - 3 * SEC, 0),
+              (0, NPC - 2 * SEC, 1), (-1, NPC - 2 * SEC, 7), (2, 123456789, 8), (1, 0, 6)]
+    steps = [1, 2, 3, 7, 1000, SEC, 60 * SEC, NPD, NPC, 10 * SEC + 1]
+    cnt = 12 if tier != "thorough" else 40
+    for s in starts:
+        for st in steps:
+            for k in (0, 1, 2, 5, 10):
+                for delta in (-1, 0, 1):
+                    span = k * st + delta
+                    if span < 0:
+                        continue
+                    sv = s[0] * NPC + s[1]
+                    for t2 in (s[2], 0, 4, 5):
+                        # the end given in another scale: same count shifted is fine, the spec re-expresses it
+                        e = parts_of(sv + span) + (s[2],)
+                        for incl in (0, 1):
+                            sc, sn = parts_of(st)
+                            if t2 == s[2]:
+                                out.append(f"tseries {p3(s)} {p3(e)} {sc} {sn} {incl} {cnt}")
+                            else:
+                                e2 = parts_of(sv + span) + (t2,)
+                                out.append(f"tseries {p3(s)} {p3(e2)} {sc} {sn} {incl} {cnt}")
+    n = budget(tier, 3000, 100000)
+    for _ in range(n):
+        s = g.rand_epoch()
+        st = g.r.choice(steps + [g.r.randint(1, 10**12)])
+        k = g.r.randint(0, 30)
+        span = k * st + g.r.choice([-1, 0, 1, g.r.randint(0, st)])
+        if span < 0:
+            span = 0
+        sv = s[0] * NPC + s[1]
+        e = parts_of(sv + span) + (g.r.choice([s[2], s[2], g.r.choice(INT_SCALES)]),)
+        sc, sn = parts_of(st)
+        out.append(f"tseries {p3(s)} {p3(e)} {sc} {sn} {g.r.randint(0, 1)} {g.r.randint(1, 40)}")
+    return out
+
+
+def gen_C20(tier, seed):
+    g = EGen(seed)
+    out = corpus("C20")
+    weeks = [0, 1, 2, 1023, 1024, 2047, 2048, 5000, 2**31, 2**32 - 1]
+    nss = [0, 1, 604800 * SEC - 1, 604800 * SEC, 604800 * SEC + 1, NPC, U64_MAX]
+    for w in weeks:
+        for ns in nss:
+            for t in (0, 4, 5, 6, 7, 8):
+                out.append(f"tow_build {w} {ns} {t}")
+    for v in [0, 1, 604800 * SEC - 1, 604800 * SEC, 604800 * SEC + 1, NPC - 1, NPC, NPC + 1, 2 * NPC + 5, MAXV - 1, 1023 * 604800 * SEC, 1024 * 604800 * SEC - 1]:
+        for t in (0, 4, 5, 6, 7, 8):
+            c, n = parts_of(v)
+            out.append(f"tow_split {c} {n} {t}")
+    counters = [0, 1, SEC, NPC - 1, NPC, NPC + 1, 2 * NPC, U64_MAX, 2**63, 2**63 - 1]
+    for n_ in counters:
+        for t in (5, 6, 7, 8):
+            out.append(f"from_ns {n_} {t}")
+    for t2 in (5, 6, 7, 8):
+        for t1 in INT_SCALES:
+            for v in [REF_NS[t2], 0, -1, 1, NPC - 1, NPC, NPC + 1, REF_NS[t2] - 1, REF_NS[t2] + 1, REF_NS[t2] + NPC - 1, REF_NS[t2] + NPC,
+                      REF_NS[t2] - REF_NS.get(t1, 0), REF_NS[t2] - REF_NS.get(t1, 0) - 1, REF_NS[t2] - REF_NS.get(t1, 0) + NPC - 1, REF_NS[t2] - REF_NS.get(t1, 0) + NPC]:
+                c, n = parts_of(v)
+                out.append(f"to_ns {c} {n} {t1} {t2}")
+    n = budget(tier, 40000, 2000000)
+    for _ in range(n):
+        k = g.r.random()
+        if k < 0.3:
+            out.append(f"tow_build {g.r.choice(weeks + [g.r.randint(0, 2**32 - 1), g.r.randint(0, 6000)])} {g.r.choice(nss + [g.r.randint(0, 604800 * SEC), g.r.randint(0, U64_MAX)])} {g.r.choice([0, 4, 5, 6, 7, 8])}")
+        elif k < 0.6:
+            v = abs(g.rand_epoch_val())
+            c, n_ = parts_of(v)
+            out.append(f"tow_split {c} {n_} {g.r.choice([0, 4, 5, 6, 7, 8])}")
+        elif k < 0.7:
+            out.append(f"from_ns {g.r.choice(counters + [g.r.randint(0, U64_MAX)])} {g.r.choice([5, 6, 7, 8])}")
+        else:
+            e = g.rand_epoch()
+            out.append(f"to_ns {p3(e)} {g.r.choice([5, 6, 7, 8])}")
+    return out
+
+
+# ------------------------------------------------------------------------------ calendar
+def day_iter(y0, y1, step):
+    n0 = days_from_civil(y0, 1, 1)
+    n1 = days_from_civil(y1 + 1, 1, 1)
+    return range(n0, n1, step)
+
+
+def civil_from_days(n):
+    z = n + 693901
+    era = z // 146097
+    doe = z % 146097
+    yoe = (doe - doe // 1460 + doe // 36524 - doe // 146096) // 365
+    doy = doe - (365 * yoe + yoe // 4 - yoe // 100)
+    mp = (5 * doy + 2) // 153
+    d = doy - (153 * mp + 2) // 5 + 1
+    m = mp + 3 if mp < 10 else mp - 9
+    y = yoe + era * 400 + (1 if m <= 2 else 0)
+    return y, m, d
+
+
+LEAP_DATES = [civil_from_days(ts // 86400 - 1) for ts in LEAP_TS]
+
+
+def gen_C08(tier, seed):
+    g = EGen(seed)
+    out = corpus("C08")
+    step = 7 if tier == "thorough" else 197
+    tods = [(0, 0, 0, 0), (23, 59, 59, 999999999)]
+    for n in day_iter(1, 9999, step):
+        y, m, d = civil_from_days(n)
+        for tod in tods:
+            out.append(f"from_greg {y} {m} {d} {tod[0]} {tod[1]} {tod[2]} {tod[3]} 0")
+        if n % 97 == 0:
+            for t in range(1, 9):
+                out.append(f"from_greg {y} {m} {d} 12 34 56 789 {t}")
+    # all month ends and starts of a 400-year cycle, all nine scales on a few
+    for y in list(range(1896, 1906)) + [1600, 1700, 1800, 2000, 2100, 2400, 1, 4, 100, 400, 9999, 9996]:
+        for m in range(1, 13):
+            for d in (1, 28, 29, 30, 31):
+                for t in (0, 4, 5):
+                    out.append(f"from_greg {y} {m} {d} 0 0 0 0 {t}")
+    for (y, m, d) in LEAP_DATES:
+        for t in range(9):
+            out.append(f"from_greg {y} {m} {d} 23 59 60 0 {t}")
+            out.append(f"from_greg {y} {m} {d} 23 59 60 999999999 {t}")
+        out.append(f"from_greg {y} {m} {d} 23 58 60 0 4")
+        out.append(f"from_greg {y} {m} {d} 22 59 60 0 4")
+        out.append(f"from_greg {y} {m} {d - 1} 23 59 60 0 4")
+        out.append(f"from_greg {y + 1} {m} {d} 23 59 60 0 4" if (y + 1, m, d) not in LEAP_DATES else "from_greg 2001 6 30 23 59 60 0 4")
+    # rejection stream: all (month, day) pairs x kinds of years x field overflows
+    for y in (2019, 2020, 1900, 2000, 2100, 1, 4, 9999, -4, 0, 30000, -30000):
+        for m in range(0, 14):
+            for d in range(0, 34):
+                out.append(f"is_valid {y} {m} {d} 0 0 0 0")
+                out.append(f"from_greg {y} {m} {d} 12 0 0 0 4")
+        for h, mi, s, ns in [(24, 0, 0, 0), (25, 0, 0, 0), (23, 60, 0, 0), (23, 59, 60, 0), (23, 59, 61, 0), (0, 0, 0, 10**9), (0, 0, 0, 10**9 + 1),
+                             (255, 0, 0, 0), (0, 255, 0, 0), (0, 0, 255, 0), (0, 0, 0, 2**32 - 1), (12, 30, 60, 0)]:
+            out.append(f"is_valid {y} 6 30 {h} {mi} {s} {ns}")
+            out.append(f"from_greg {y} 6 30 {h} {mi} {s} {ns} 0")
+    for y in (-30000, -12345, -1, 0, 10000, 12345, 30000, 2**31 - 1, -2**31, 5883000, -5879000):
+        for (m, d) in ((1, 1), (2, 28), (3, 1), (12, 31), (6, 15)):
+            out.append(f"from_greg {y} {m} {d} 0 0 0 0 0")
+    n = budget(tier, 8000, 300000)
+    for _ in range(n):
+        r = g.r
+        k = r.random()
+        y = r.randint(1, 9999) if k < 0.7 else r.randint(-30000, 30000)
+        m = r.randint(1, 12)
+        d = r.randint(1, mlen(y, m)) if r.random() < 0.9 else r.randint(0, 32)
+        h, mi, s, ns = r.randint(0, 23), r.randint(0, 59), r.randint(0, 59), r.choice([0, 1, 999999999, r.randint(0, 999999999)])
+        if r.random() < 0.05:
+            h, mi, s = r.choice([(24, 0, 0), (23, 59, 60), (r.randint(0, 30), r.randint(0, 70), r.randint(0, 70))])
+        out.append(f"from_greg {y} {m} {d} {h} {mi} {s} {ns} {r.randint(0, 8)}")
+    return out
+
+
+def gen_C09(tier, seed):
+    g = EGen(seed)
+    out = corpus("C09")
+    step = 1 if tier == "thorough" else 17
+    for n in day_iter(1, 9999, step):
+        for tod in (0, NPD - 1):
+            c, nn = parts_of(n * NPD + tod)
+            out.append(f"to_greg {c} {nn} 0")
+        if n % 89 == 0:
+            for t in range(1, 9):
+                c, nn = parts_of(n * NPD + g.r.randint(0, NPD - 1) - REF_NS.get(t, 0))
+                out.append(f"to_greg {c} {nn} {t}")
+    for y in (-30000, -10000, -1, 0, 1, 10000, 30000, 5000000, -5000000):
+        for off in (-1, 0, 1, NPD - 1, NPD):
+            v = days_from_civil(y, 1, 1) * NPD + off
+            if MINV <= v < MAXV:
+                c, nn = parts_of(v)
+                out.append(f"to_greg {c} {nn} 0")
+    for v in (MINV, MINV + 1, MAXV - 1, MAXV, 0, -1, 1):
+        for t in range(9):
+            c, nn = parts_of(v)
+            out.append(f"to_greg {c} {nn} {t}")
+    n = budget(tier, 30000, 1500000)
+    for _ in range(n):
+        r = g.r
+        day = r.randint(days_from_civil(1, 1, 1), days_from_civil(9999, 12, 31)) if r.random() < 0.8 else r.randint(days_from_civil(-30000, 1, 1), days_from_civil(30000, 1, 1))
+        tod = r.choice([0, 1, NPD - 1, r.randint(0, NPD - 1), r.randint(0, 86399) * SEC])
+        t = r.randint(0, 8)
+        c, nn = parts_of(day * NPD + tod - REF_NS.get(t, 0))
+        out.append(f"to_greg {c} {nn} {t}")
+    return out
+
+
+def gen_C16(tier, seed):
+    g = EGen(seed)
+    out = corpus("C16")
+    for a in range(7):
+        for n in range(256):
+            out.append(f"wd_add_u8 {a} {n}")
+            out.append(f"wd_sub_u8 {a} {n}")
+        for b in range(7):
+            out.append(f"wd_add {a} {b}")
+            out.append(f"wd_diff {a} {b}")
+    for n in range(256):
+        out.append(f"wd_from_u8 {n}")
+        out.append(f"wd_from_i8 {n - 128}")
+    step = 1 if tier == "thorough" else 23
+    for n in day_iter(1, 9999, step):
+        for tod in (0, NPD - 1):
+            c, nn = parts_of(n * NPD + tod)
+            out.append(f"weekday {c} {nn} 0")
+        if n % 7 == 3:
+            c, nn = parts_of(n * NPD + NPD - 1)
+            out.append(f"weekday_utc {c} {nn} 4")
+            out.append(f"weekday {c} {nn} {g.r.choice(INT_SCALES)}")
+    for v in g.leap_neighbourhood()[::3]:
+        c, nn = parts_of(v)
+        out.append(f"weekday_utc {c} {nn} 4")
+        out.append(f"weekday_utc {c} {nn} 0")
+        out.append(f"weekday {c} {nn} 4")
+    n = budget(tier, 20000, 1000000)
+    for _ in range(n):
+        e = g.rand_epoch()
+        k = g.r.random()
+        if k < 0.3:
+            out.append(f"weekday {p3(e)}")
+        elif k < 0.45:
+            out.append(f"weekday_utc {p3(e)}")
+        elif k < 0.75:
+            out.append(f"next {p3(e)} {g.r.randint(0, 6)}")
+        else:
+            out.append(f"prev {p3(e)} {g.r.randint(0, 6)}")
+    return out
+
+
+GENERATORS.update({"C04": gen_C04, "C05": gen_C05, "C06": gen_C06, "C12": gen_C12, "C15": gen_C15, "C20": gen_C20,
+                   "C08": gen_C08, "C09": gen_C09, "C16": gen_C16})
